@@ -44,6 +44,10 @@ def _items(tier):
 
 def plan(tier, seed):
     w1, w2, exprs = _items(tier)
+    exprs_multi = [x for _, ss in grammar.FAMILIES for x in ss if 2 <= len(x.split(" ")) <= 4 and "#" not in x]
+    if tier == "quick":
+        exprs_multi = exprs_multi[::3]
+
     def gen():
         for pi, (t1, t2) in enumerate(TAG_PAIRS):
             others = [("w", w1), ("w", w2), ("o", ORDINARY), ("t", t1), ("t", t2)]
@@ -69,6 +73,14 @@ def plan(tier, seed):
                             if not has_tag:
                                 for sep in DASH_SEPS:
                                     yield (tuple(perm), sep)
+        # a hashtag INSIDE a multi-token expression (between any two of its tokens), with inert words around
+        for e in exprs_multi:
+            toks = e.split(" ")
+            for cut in range(1, len(toks)):
+                for tag in ("#fun", "#p_1-x"):
+                    inner = " ".join(toks[:cut]) + " " + tag + " " + " ".join(toks[cut:])
+                    for items in ([("x", inner)], [("w", w1), ("x", inner)], [("x", inner), ("w", w2)], [("w", w1), ("x", inner), ("w", w2)]):
+                        yield (tuple(items) + (("E", e), ("T", tag)), " ")
 
     space = {"expressions": len(exprs), "other_items": 5, "separators": SEPS + ["mixed"], "inert_words": [w1, w2], "ordinary_word": ORDINARY, "hashtag_pairs": [list(t) for t in TAG_PAIRS], "dash_separators": DASH_SEPS}
     return {"space": space, "cases": gen(), "chunk": 32, "hash_distinct": True}
@@ -116,7 +128,7 @@ def _check(text, items, v, sig):
         if subj != want:
             v.append(viol(dict(sig, kind="no_match_subject"), "{!r}: no resolution, subject {!r} expected {!r}".format(text, subj, want), want, subj))
     elif expr is not None:
-        norm = re.sub("#[a-zA-Z0-9_-]+", "", m._preprocess_string(text)).strip()
+        norm = re.sub(" {2,}", " ", re.sub("#[a-zA-Z0-9_-]+", "", m._preprocess_string(text)).strip())
         en = m._preprocess_string(expr)
         pos = norm.find(en)
         res = r.resolution
@@ -127,9 +139,31 @@ def _check(text, items, v, sig):
     return obs(r.resolution), subj
 
 
+def _inner_case(items):
+    """hashtag between two tokens of the expression: labels = [tag]; resolution and subject as without the tag"""
+    m = lib()[2]
+    e = next(x for k, x in items if k == "E")
+    tag = next(x for k, x in items if k == "T")
+    with_tag = " ".join(x for k, x in items if k in ("w", "x"))
+    without = " ".join((x if k == "w" else e) for k, x in items if k in ("w", "x"))
+    a = parse(with_tag, TS)
+    b = parse(without, TS)
+    v = []
+    sig = {"path": "hashtag_inside_expression"}
+    if a.labels != [tag[1:]]:
+        v.append(viol(dict(sig, kind="labels"), "{!r}: labels {} expected {}".format(with_tag, a.labels, [tag[1:]])))
+    if obs(a.resolution) != obs(b.resolution):
+        v.append(viol(dict(sig, kind="hashtag_changes_resolution"), "{!r} -> {} but without the hashtag {!r} -> {}".format(with_tag, fmt(obs(a.resolution)), without, fmt(obs(b.resolution)))))
+    if a.subject != b.subject:
+        v.append(viol(dict(sig, kind="hashtag_changes_subject"), "{!r}: subject {!r} but without the hashtag {!r}".format(with_tag, a.subject, b.subject)))
+    return {"o": "inner:" + ("ok" if not v else v[0]["sig"]["kind"]), "nt": True, "v": v[:3]}
+
+
 def run_case(case):
     items, sep = case
     items = [tuple(x) for x in items]
+    if any(k == "E" for k, _ in items):
+        return _inner_case(items)
     text = _join([x for _, x in items], sep)
     v = []
     sig = {"path": "match"}
